@@ -1,5 +1,152 @@
+(* C09/Props.v -- pinned property theorems for C09 (relational transactions); statements in full.
+   `mstep` / `mrun` = the model step / run with the flag regenerated from relational_engine/src/lib.rs
+   (tx_insert locks the row it inserts; Inst.gen_c09_spec re-proves on every run that it is `true`). *)
 From NV.Common Require Import Base LockTable LockTableFacts.
 From NV.C09 Require Import Model Proofs Inst.
+From NV.gen Require Import Gen_C09.
 Open Scope N_scope.
-Theorem C09_placeholder : True. Proof. exact I. Qed.
-Print Assumptions C09_placeholder.
+
+Notation mstep := (rstep gen_insert_locks_row gen_undo_btree_guarded).
+Notation mrun := (rrun gen_insert_locks_row gen_undo_btree_guarded).
+Notation mstmt := (stmt gen_insert_locks_row).
+
+(* "While a transaction has modified a row, no other transaction can modify or delete that row: it receives a
+   lock-conflict error instead": in every reachable state, a statement of transaction tx (an explicit one or the
+   internal one of insert/update/delete_rows) never changes a row whose unexpired lock belongs to another
+   transaction, and if its condition matches such a row the whole statement is refused with LockConflict naming a
+   real unexpired foreign holder, leaving the state unchanged. *)
+Theorem C09_row_lock_exclusion : forall ops ltmo0 tx o rid Y,
+  let e := mrun (einit ltmo0) ops in
+  holder (enow e) (ltab e) rid = Some Y -> Y <> tx ->
+  nth_row (rows (fst (mstmt e tx o))) rid = nth_row (rows e) rid /\
+  (forall c, (exists col v t, o = RUpdate t c col v) \/ (exists t, o = RDelete t c) ->
+     In rid (map fst (matching e c)) ->
+     exists b k, mstmt e tx o = (e, [4; b; k]) /\ In k (map fst (matching e c)) /\ holder (enow e) (ltab e) k = Some b /\ b <> tx).
+Proof.
+  intros ops ltmo0 tx o rid Y e Hh Hne. split.
+  - apply (stmt_exclusion _ e tx o rid Y); auto. exact (proj1 (proj2 (rrun_EInv _ _ ops _ (einit_EInv ltmo0)))).
+  - intros c Ho Hin. eapply stmt_conflict; eauto.
+Qed.
+
+(* ... and the writer really holds those locks: a successful update/delete leaves every matched row locked by its
+   transaction, and tx_insert leaves the new row locked by the inserting transaction. *)
+Theorem C09_writer_holds_lock : forall ops ltmo0 tx,
+  let e := mrun (einit ltmo0) ops in
+  (forall c o n, (exists col v t, o = RUpdate t c col v) \/ (exists t, o = RDelete t c) ->
+     snd (mstmt e tx o) = [0; n] ->
+     forall k, In k (map fst (matching e c)) -> holder (enow e) (ltab (fst (mstmt e tx o))) k = Some tx) /\
+  (forall a b t, exists rid, snd (mstmt e tx (RInsert t a b)) = [0; rid] /\
+     holder (enow e) (ltab (fst (mstmt e tx (RInsert t a b)))) rid = Some tx /\
+     nth_row (rows (fst (mstmt e tx (RInsert t a b)))) rid = Some (R true a b)).
+Proof.
+  intros ops ltmo0 tx e. split.
+  - intros c o n Ho Hr k Hk. eapply writer_holds_lock; eauto.
+  - intros a b t. destruct gen_c09_spec as [-> _]. apply inserter_holds_lock. exact (rrun_EInv _ _ ops _ (einit_EInv ltmo0)).
+Qed.
+
+(* "the locks disappear when the first one ends": after commit or rollback of an active transaction no lock is
+   owned by it (expiry is lazy: a lock past its timeout never blocks, see LockTable.blocks). *)
+Theorem C09_locks_released_at_end : forall ops ltmo0 tx l k lk,
+  let e := mrun (einit ltmo0) ops in
+  aget (txs e) tx = Some l ->
+  (aget (locks (ltab (fst (mstep e (RCommit tx))))) k = Some lk -> owner lk <> tx) /\
+  (aget (locks (ltab (fst (mstep e (RRollback tx))))) k = Some lk -> owner lk <> tx).
+Proof.
+  intros ops ltmo0 tx l k lk e G. pose proof (rrun_EInv gen_insert_locks_row gen_undo_btree_guarded ops _ (einit_EInv ltmo0)) as I. fold e in I.
+  cbn [rstep]. rewrite G. split.
+  - cbn [fst]. apply end_tx_releases. exact I.
+  - pose proof (rollback_releases gen_undo_btree_guarded e tx l I k lk) as H. destruct (do_rollback gen_undo_btree_guarded e tx l) as [e' err]. exact H.
+Qed.
+
+(* "Finished transactions cannot be used again": commit and rollback end the transaction; from then on, after ANY
+   further operations, every call naming it answers TransactionNotFound and changes nothing (ids are never reused). *)
+Theorem C09_finished_unusable : forall ops ltmo0 tx l fin ops' o,
+  let e := mrun (einit ltmo0) ops in
+  aget (txs e) tx = Some l -> fin = RCommit tx \/ fin = RRollback tx ->
+  let e' := mrun (fst (mstep e fin)) ops' in
+  (exists a b, o = RInsert (Some tx) a b) \/ (exists c col v, o = RUpdate (Some tx) c col v) \/ (exists c, o = RDelete (Some tx) c)
+  \/ o = RCommit tx \/ o = RRollback tx ->
+  mstep e' o = (e', [1]).
+Proof.
+  intros ops ltmo0 tx l fin ops' o e G Hfin e' Ho.
+  pose proof (rrun_EInv gen_insert_locks_row gen_undo_btree_guarded ops _ (einit_EInv ltmo0)) as I. fold e in I.
+  destruct (finish_makes_Gone gen_insert_locks_row gen_undo_btree_guarded e tx I (ex_intro _ l G)) as [Gc Gr].
+  assert (Hg : Gone (fst (mstep e fin)) tx) by (destruct Hfin as [-> | ->]; assumption).
+  apply (gone_rejected gen_insert_locks_row gen_undo_btree_guarded e' tx o); [|exact Ho]. exact (proj1 (rrun_Gone gen_insert_locks_row gen_undo_btree_guarded ops' _ tx Hg)).
+Qed.
+
+(* "every query answered through an index": when the indexes are complete (every live row is listed in every
+   existing hash / B-tree index), the B-tree entries of live rows carry the rows' current values and the entry lists
+   are duplicate-free, select through an index returns exactly what the scan returns -- same rows, each once, same order. *)
+Theorem C09_index_answers_equal_scan : forall e c,
+  NoDup (hent e) -> NoDup (bent e) ->
+  (forall col rid r, In col (hmeta e) -> In (rid, r) (scan (rows e)) -> In (col, getcol r col, rid) (hent e)) ->
+  (forall col rid r, In col (bmeta e) -> In (rid, r) (scan (rows e)) -> In (col, getcol r col, rid) (bent e)) ->
+  (forall col v rid r, In col (bmeta e) -> In (col, v, rid) (bent e) -> In (rid, r) (scan (rows e)) -> v = getcol r col) ->
+  select_ids e c = map fst (matching e c).
+Proof. intros e c H1 H2 H3 H4 H5. apply select_index_eq_scan. exact (conj H1 (conj H2 (conj (conj H3 H4) H5))). Qed.
+
+(* "Rolling back a transaction leaves every table ... exactly as if none of the transaction's statements had run":
+   row by row, for EVERY interleaving.  Hist tx rid e0 e = from e0 to e, tx ran any of its statements, interleaved
+   with arbitrary other state changes that leave tx's undo log alone, do not shrink the slab and do not change the
+   live content of row rid (for other writers C09_row_lock_exclusion guarantees this while tx's row lock has not
+   expired; the complement is the known class rollback-after-lock-expiry).  If tx's log was empty at e0 (it had just
+   begun), rolling it back at e gives row rid the live content it had at e0: the same values, or absent. *)
+Theorem C09_rollback_restores_row : forall tx rid e0 e,
+  Hist gen_insert_locks_row tx rid e0 e -> aget (txs e0) tx = Some [] ->
+  exists l, aget (txs e) tx = Some l /\
+            live (nth_row (rows (fst (do_rollback gen_undo_btree_guarded e tx l))) rid) = live (nth_row (rows e0) rid).
+Proof. exact (rollback_restores_row gen_insert_locks_row gen_undo_btree_guarded). Qed.
+
+(* "committing makes all of them permanent": commit touches neither rows nor index entries. *)
+Theorem C09_commit_keeps_all : forall e tx,
+  let e' := fst (mstep e (RCommit tx)) in
+  rows e' = rows e /\ hent e' = hent e /\ bent e' = bent e /\ hmeta e' = hmeta e /\ bmeta e' = bmeta e.
+Proof. intros e tx. cbn [rstep]. destruct (aget (txs e) tx); cbn; auto. Qed.
+
+(* the two recorded classes are real: without their guards the statements are false of the faithful model *)
+Theorem C09_rollback_after_expiry_refuted :
+  exists ops, let e := mrun (einit 30000) ops in
+    live (nth_row (rows e) 1) = Some (0, 1) /\                       (* T2's committed update *)
+    live (nth_row (rows (fst (mstep e (RRollback 2)))) 1) = Some (1, 1). (* ... destroyed by T1's rollback *)
+Proof.
+  exists [RInsert None 1 1; RBegin; RUpdate (Some 2) CTrue 0 2; RBegin; RAdvance 30001; RUpdate (Some 3) CTrue 0 0; RCommit 3].
+  vm_compute. split; reflexivity.
+Qed.
+
+Theorem C09_index_created_in_open_tx_refuted :
+  exists ops c, let e := mrun (einit 30000) ops in select_ids e c <> map fst (matching e c).
+Proof.
+  exists [RInsert None 1 1; RBegin; RDelete (Some 2) (CEq 0 1); RCreateIndex 0; RRollback 2], (CEq 0 1).
+  vm_compute. discriminate.
+Qed.
+
+(* ---------------------------------------------------------------- non-vacuity *)
+Example ex_conflict :
+  let e := mrun (einit 30000) [RInsert None 1 1; RBegin; RUpdate (Some 2) CTrue 0 2; RBegin] in
+  holder (enow e) (ltab e) 1 = Some 2 /\ mstmt e 3 (RDelete (Some 3) (CEq 1 1)) = (e, [4; 2; 1]) /\
+  snd (mstep (fst (mstep e (RCommit 2))) (RUpdate (Some 2) CTrue 0 0)) = [1].
+Proof. vm_compute. repeat split. Qed.
+
+(* a history with two own statements around a foreign insert; the rollback really has something to undo *)
+Example ex_hist :
+  let e0 := mrun (einit 30000) [RInsert None 1 1; RBegin] in
+  let e1 := fst (mstmt e0 2 (RUpdate (Some 2) CTrue 0 2)) in
+  let e2 := fst (mstep e1 (RInsert None 0 0)) in
+  let e3 := fst (mstmt e2 2 (RDelete (Some 2) (CEq 0 2))) in
+  Hist gen_insert_locks_row 2 1 e0 e3 /\ live (nth_row (rows e3) 1) = None /\ live (nth_row (rows e0) 1) = Some (1, 1).
+Proof.
+  cbv zeta. split; [|vm_compute; split; reflexivity].
+  apply HOwn with (o := RUpdate (Some 2) CTrue 0 2).
+  eapply HOther; [| | |apply HOwn with (o := RDelete (Some 2) (CEq 0 2)); apply HNil]; vm_compute; (reflexivity || discriminate).
+Qed.
+
+Print Assumptions C09_row_lock_exclusion.
+Print Assumptions C09_writer_holds_lock.
+Print Assumptions C09_locks_released_at_end.
+Print Assumptions C09_finished_unusable.
+Print Assumptions C09_index_answers_equal_scan.
+Print Assumptions C09_rollback_restores_row.
+Print Assumptions C09_commit_keeps_all.
+Print Assumptions C09_rollback_after_expiry_refuted.
+Print Assumptions C09_index_created_in_open_tx_refuted.
